@@ -1396,3 +1396,62 @@ Proof.
   rewrite app_nil_r in Hd.
   apply (uper_decode_truncation _ _ _ _ _ _ _ Hd); [lia | exact Hk].
 Qed.
+
+(** ** X.691 characterisations of the model's width computations (C05) *)
+
+(** 10.5.6/10.5.7.1: a constrained whole number of range [hi - lo + 1] uses
+    the SMALLEST field that can hold [hi - lo]. *)
+Theorem constrained_width_minimal lo hi :
+  lo <= hi ->
+  let n := bit_length (hi - lo) in
+  hi - lo < 2 ^ n /\ forall m, 0 <= m < n -> 2 ^ m <= hi - lo.
+Proof.
+  intros H n. unfold n. destruct (Z.eq_dec (hi - lo) 0) as [E|E].
+  - rewrite E. cbn. split; [lia|]. intros m Hm. lia.
+  - pose proof (bit_length_pos (hi - lo) ltac:(lia)) as Hb. split; [lia|].
+    intros m Hm. assert (2 ^ m <= 2 ^ (bit_length (hi - lo) - 1)) by (apply pow2_le_mono; lia). lia.
+Qed.
+
+(** 10.8 / 12.2.6: an unconstrained whole number is a 2's-complement binary
+    integer in the MINIMUM number of octets. *)
+Theorem unconstrained_octets_minimal v :
+  let n := unc_nbytes v in
+  (- 2 ^ (8 * n - 1) <= v < 2 ^ (8 * n - 1)) /\
+  (1 < n -> ~ (- 2 ^ (8 * (n - 1) - 1) <= v < 2 ^ (8 * (n - 1) - 1))).
+Proof.
+  cbv zeta. split; [apply unc_nbytes_fits|].
+  unfold unc_nbytes. pose proof (bit_length_nonneg v) as Hnb.
+  destruct (v <? 0) eqn:Eneg.
+  - assert (Hb : 2 ^ (bit_length (- v) - 1) <= - v < 2 ^ bit_length (- v)) by (apply bit_length_pos; lia).
+    assert (Hbl : bit_length v = bit_length (- v)).
+    { unfold bit_length. rewrite Z.abs_opp. destruct (v =? 0) eqn:E0; destruct (- v =? 0) eqn:E1; lia. }
+    rewrite <- Hbl in Hb. set (nb := bit_length v) in *. set (n0 := (nb + 7) / 8).
+    assert (Hnb1 : 1 <= nb).
+    { destruct (Z.eq_dec nb 0) as [E|E]; [rewrite E in Hb; simpl in Hb; lia | lia]. }
+    assert (Hn0 : nb <= 8 * n0 /\ 8 * n0 < nb + 8) by (unfold n0; lia).
+    assert (Hle : 2 ^ nb <= 2 ^ (8 * n0)) by (apply pow2_le_mono; lia).
+    rewrite (testbit_top (2 ^ (8 * n0) + v) (8 * n0)) by lia.
+    assert (H2 : 2 ^ (8 * n0) = 2 * 2 ^ (8 * n0 - 1)).
+    { replace (8 * n0) with (8 * n0 - 1 + 1) at 1 by lia. rewrite Z.pow_add_r by lia. change (2 ^ 1) with 2. lia. }
+    destruct (2 ^ (8 * n0 - 1) <=? 2 ^ (8 * n0) + v) eqn:E; cbn [negb].
+    + (* n = n0: v does not fit in n0 - 1 octets because -v >= 2^(nb-1) and nb - 1 >= 8 (n0 - 1) - 1 ... *)
+      intros Hn [Hlo _]. assert (8 * (n0 - 1) - 1 <= nb - 1 - 1 \/ 8 * (n0 - 1) - 1 = nb - 1) as [Hc|Hc] by lia.
+      * assert (2 ^ (8 * (n0 - 1) - 1) <= 2 ^ (nb - 1 - 1)) by (apply pow2_le_mono; lia).
+        assert (2 ^ (nb - 1) = 2 * 2 ^ (nb - 1 - 1)).
+        { replace (nb - 1) with (nb - 1 - 1 + 1) at 1 by lia. rewrite Z.pow_add_r by lia. change (2 ^ 1) with 2. lia. }
+        assert (0 < 2 ^ (nb - 1 - 1)) by (apply pow2_pos; lia). lia.
+      * (* nb = 8 (n0 - 1): then 8 n0 = nb + 8 contradicts 8 n0 < nb + 8 *) lia.
+    + intros Hn [Hlo _]. replace (n0 + 1 - 1) with n0 in Hlo by lia. lia.
+  - destruct (v >? 0) eqn:Epos.
+    + assert (Hb : 2 ^ (bit_length v - 1) <= v < 2 ^ bit_length v) by (apply bit_length_pos; lia).
+      set (nb := bit_length v) in *. set (n0 := (nb + 7) / 8).
+      assert (Hnb1 : 1 <= nb).
+      { destruct (Z.eq_dec nb 0) as [E|E]; [rewrite E in Hb; simpl in Hb; lia | lia]. }
+      assert (Hn0 : nb <= 8 * n0 /\ 8 * n0 < nb + 8) by (unfold n0; lia).
+      destruct (nb =? 8 * n0) eqn:E.
+      * intros Hn [_ Hhi]. replace (n0 + 1 - 1) with n0 in Hhi by lia.
+        assert (nb - 1 = 8 * n0 - 1) by lia. rewrite <- H in Hhi. lia.
+      * intros Hn [_ Hhi].
+        assert (2 ^ (8 * (n0 - 1) - 1) <= 2 ^ (nb - 1)) by (apply pow2_le_mono; lia). lia.
+    + intros Hn. lia.
+Qed.
